@@ -2591,6 +2591,13 @@ pub fn apply_action(w: &mut World, action: &Value) -> Result<Value, String> {
             w.run_task(Task::RenewObjectsIfNeeded)?;
             Ok(json!("ok"))
         }
+        "UpdateSnapshots" => {
+            // the daily job: a new snapshot of every aggregate and of the
+            // publication server's content (whose change sets are folded
+            // into it and removed)
+            w.run_task(Task::UpdateSnapshots)?;
+            Ok(json!("ok"))
+        }
         "Dump" => {
             let ca = w.env.krill.ca_manager().get_ca(
                 &ca_handle(str_arg(action, "c"))
